@@ -178,22 +178,30 @@ fn guard_cases(name: &str, s: &StateSpec) -> Vec<(StateSpec, &'static str)> {
             push(&|c| { if !c.ints.is_empty() { c.ints[0] = -1 } }, "size < 0");
             push(&|c| { if !c.ints.is_empty() { c.ints[0] = i32::MIN } }, "size < 0");
         }
+        // a failing distribution guard is crossed with every size class (0, 1, several): the
+        // guard is documented independently of the size
         "BOOLVECTOR.RAND" => {
             push(&|c| { if !c.ints.is_empty() { c.ints[0] = -3 } }, "size < 0");
-            push(&|c| { if !c.ints.is_empty() && !c.floats.is_empty() { c.ints[0] = 4; c.floats[0] = 1.5 } }, "sparsity > 1");
-            push(&|c| { if !c.ints.is_empty() && !c.floats.is_empty() { c.ints[0] = 4; c.floats[0] = -0.25 } }, "sparsity < 0");
-            push(&|c| { if !c.ints.is_empty() && !c.floats.is_empty() { c.ints[0] = 4; c.floats[0] = f32::NAN } }, "sparsity NaN");
+            for size in [0, 1, 4] {
+                push(&|c| { if !c.ints.is_empty() && !c.floats.is_empty() { c.ints[0] = size; c.floats[0] = 1.5 } }, "sparsity > 1");
+                push(&|c| { if !c.ints.is_empty() && !c.floats.is_empty() { c.ints[0] = size; c.floats[0] = -0.25 } }, "sparsity < 0");
+                push(&|c| { if !c.ints.is_empty() && !c.floats.is_empty() { c.ints[0] = size; c.floats[0] = f32::NAN } }, "sparsity NaN");
+            }
         }
         "INTVECTOR.RAND" => {
-            push(&|c| { if c.ints.len() >= 3 { c.ints[0] = 3; c.ints[1] = 5; c.ints[2] = 5 } }, "max = min");
-            push(&|c| { if c.ints.len() >= 3 { c.ints[0] = 3; c.ints[1] = 2; c.ints[2] = 9 } }, "max < min");
+            for size in [0, 1, 3] {
+                push(&|c| { if c.ints.len() >= 3 { c.ints[0] = size; c.ints[1] = 5; c.ints[2] = 5 } }, "max = min");
+                push(&|c| { if c.ints.len() >= 3 { c.ints[0] = size; c.ints[1] = 2; c.ints[2] = 9 } }, "max < min");
+            }
             push(&|c| { if c.ints.len() >= 3 { c.ints[0] = -1; c.ints[1] = 9; c.ints[2] = 2 } }, "size < 0");
         }
         "FLOATVECTOR.RAND" => {
-            push(&|c| { if !c.ints.is_empty() && c.floats.len() >= 2 { c.ints[0] = 3; c.floats[0] = 0.0; c.floats[1] = -1.0 } }, "deviation < 0");
+            for size in [0, 1, 3] {
+                push(&|c| { if !c.ints.is_empty() && c.floats.len() >= 2 { c.ints[0] = size; c.floats[0] = 0.0; c.floats[1] = -1.0 } }, "deviation < 0");
+                push(&|c| { if !c.ints.is_empty() && c.floats.len() >= 2 { c.ints[0] = size; c.floats[0] = 0.0; c.floats[1] = f32::NAN } }, "deviation NaN");
+                push(&|c| { if !c.ints.is_empty() && c.floats.len() >= 2 { c.ints[0] = size; c.floats[0] = 0.0; c.floats[1] = f32::INFINITY } }, "deviation infinite");
+            }
             push(&|c| { if !c.ints.is_empty() && c.floats.len() >= 2 { c.ints[0] = -2; c.floats[0] = 0.0; c.floats[1] = 1.0 } }, "size < 0");
-            push(&|c| { if !c.ints.is_empty() && c.floats.len() >= 2 { c.ints[0] = 3; c.floats[0] = 0.0; c.floats[1] = f32::NAN } }, "deviation NaN");
-            push(&|c| { if !c.ints.is_empty() && c.floats.len() >= 2 { c.ints[0] = 3; c.floats[0] = 0.0; c.floats[1] = f32::INFINITY } }, "deviation infinite");
         }
         "INTEGER.RAND" => push(&|c| { c.config.min_random_integer = 5; c.config.max_random_integer = 5 }, "max <= min"),
         "FLOAT.RAND" => push(&|c| { c.config.min_random_float = 2.0; c.config.max_random_float = 1.0 }, "max <= min"),
@@ -359,7 +367,7 @@ pub fn run(ctx: &Ctx) -> PropReport {
     rep.assumptions.push("footprint table design/footprint.tsv compiled from the doc comments; which of its own operands an unfired instruction consumes is unspecified; documented exception: INTVECTOR.SET*INSERT creates an empty vector".into());
     rep.extra.insert("untabled_instructions".into(), json!(untabled));
     rep.extra.insert("tabled_but_not_registered".into(), json!(missing));
-    let draws = ctx.tier.pick(40u64, 800u64);
+    let draws = ctx.tier.pick(150u64, 1500u64);
     // work items: (name, kind)
     let mut work: Vec<(String, Option<Vec<(&'static str, usize)>>)> = vec![];
     for n in &names {
